@@ -18,6 +18,8 @@ def build(env, cfg):
         kw["flow2class"] = lambda f: 1 - f
     elif fmap == "mod2":
         kw["flow2class"] = lambda f: f % 2
+    elif fmap == "big":
+        kw["flow2class"] = lambda f: 1000 + f        # class ids computed on every call (equal, but never the same object)
     if kind == "SP":
         return SP(env, rate, table, **kw)
     if kind == "WFQ":
@@ -35,6 +37,8 @@ def build(env, cfg):
 
 def class_of(cfg, flow):
     m = cfg.get("map", "id")
+    if m == "big":
+        return 1000 + flow
     return 0 if m == "one" else (1 - flow if m == "swap" else flow)
 
 
@@ -59,15 +63,29 @@ class SchedRun:
                     holder["twin"].put(copy.copy(pkt))
         front = Front()
         nmax = cfg["N"]
+        scale = cfg.get("scale", 1)
         if cfg.get("order", 0) == 0:
-            env.process(net.driver(ch, nmax, items, front, long_gap=cfg.get("L", 50)))
+            env.process(net.driver(ch, nmax, items, front, long_gap=cfg.get("L", 50), scale=scale))
             s = build(env, cfg)
         else:
             s = build(env, cfg)
-            env.process(net.driver(ch, nmax, items, front, long_gap=cfg.get("L", 50)))
+            env.process(net.driver(ch, nmax, items, front, long_gap=cfg.get("L", 50), scale=scale))
         holder["s"] = s
         self.sched = s
-        s.out = net.sink()
+        if cfg.get("mailbox"):
+            # the next hop is a kernel Store (mailbox idiom) emptied by a consumer process
+            from onl.sim import Store
+            box = Store(env)
+            sink = net.sink()
+
+            def consumer():
+                while True:
+                    p = yield box.get()
+                    sink.put(p)
+            env.process(consumer())
+            s.out = box
+        else:
+            s.out = net.sink()
         if cfg.get("twin"):
             t2 = build(env, cfg)
             t2.out = type("Null", (), {"put": staticmethod(lambda p: None)})()
@@ -107,6 +125,8 @@ class SchedRun:
         return cnt, byt
 
     def _counters(self, where):
+        if self.cfg.get("mailbox") and where != "settled":
+            return      # the consumer behind the mailbox logs a departure a few kernel steps after it happened
         if self.cbad or self.mon is not None:
             # (reading size(f) registers f in the scheduler's defaultdict counters: with a Monitor attached the harness
             # keeps its hands off, so that the monitor alone decides which flows it has seen)
